@@ -30,3 +30,11 @@ Theorem C11_refuted_acl :
   exists d, load_proc_desc d = LoadErr EAclAssert.
 Proof. exact C11_refuted_acl_lemma. Qed.
 Print Assumptions C11_refuted_acl.
+
+(* the reading applied to implementation outputs: for a duplicate name ANY clashing pair (first defined
+   earlier) is a real culprit; implied by C11_error_sound *)
+From PS Require Import Domain C11_weak.
+Theorem C11_error_sound_weak :
+  forall d e, acl_knownb d = true -> load_proc_desc d = LoadErr e -> C11_error_okw d e = true.
+Proof. exact C11_error_sound_weak_lemma. Qed.
+Print Assumptions C11_error_sound_weak.
